@@ -113,6 +113,11 @@ def run(ctx):
                 more += 1
             elif atom and logic.entails(st, Not(atom), fe.lg.axioms)[0] is True and not in_loop:
                 less += 1
+        if not rit:
+            # placeholders are not walked with a regex iterator (a hand-written search): the arity guards cannot be read off the iterator
+            # comparison - not a verdict about the code, the idiom is outside what this rule recognises
+            ctx.broken("R08.3", f, "arity-guards", "formatter::str does not walk the placeholders with a std::regex_iterator: the arity guards are not in a recognised form", f)
+            continue
         ctx.check(more == 1, "R08.3", f, "more-arguments-raises", "no raise guards the loop when the placeholders are exhausted (`placeholder == end` inside the argument loop): surplus arguments are dropped silently", f)
         ctx.check(less == 1, "R08.3", f, "less-arguments-raises", "no raise guards the result when placeholders remain after the last argument: partial output is returned", f)
         for bid, i, e in f.roots():
